@@ -50,166 +50,328 @@ theorem NoDataAfterCloseC_append : ∀ (a b : List CEv), NoDataAfterCloseC a →
     intro hce
     exact NoDataC_append (h1 hce) (hc ⟨e, List.mem_cons_self .., hce⟩)
 
-theorem cHandleFrame_noData (s : CSess) (f : Frame) : NoDataC (cHandleFrame s f).2 := by
-  rw [NoDataC_iff]
-  unfold cHandleFrame cHandleDataFrame cSendClose
+/-! ### sends touch nothing but `closeSent` -/
+
+/-- the fields a send can not change -/
+def CSame (s s' : CSess) : Prop :=
+  s'.buffer = s.buffer ∧ s'.fragBuf = s.fragBuf ∧ s'.fragOp = s.fragOp ∧ s'.closeEchoed = s.closeEchoed ∧
+  s'.protocolFailed = s.protocolFailed ∧ s'.connected = s.connected ∧ s'.upgraded = s.upgraded
+
+theorem CSame.rfl' (s : CSess) : CSame s s := ⟨rfl, rfl, rfl, rfl, rfl, rfl, rfl⟩
+theorem CSame.trans {a b c : CSess} (h1 : CSame a b) (h2 : CSame b c) : CSame a c :=
+  ⟨h2.1.trans h1.1, h2.2.1.trans h1.2.1, h2.2.2.1.trans h1.2.2.1, h2.2.2.2.1.trans h1.2.2.2.1,
+   h2.2.2.2.2.1.trans h1.2.2.2.2.1, h2.2.2.2.2.2.1.trans h1.2.2.2.2.2.1, h2.2.2.2.2.2.2.trans h1.2.2.2.2.2.2⟩
+
+@[simp] theorem cSend_state (s : CSess) (op : Nat) (pl : Bytes) : (cSend s op pl).1 = s := by
+  unfold cSend; repeat' split
+  all_goals rfl
+@[simp] theorem cSendPing_state (s : CSess) (pl : Bytes) : (cSendPing s pl).1 = s := by
+  unfold cSendPing; split <;> simp
+
+theorem cSendClose_same (s : CSess) (c : Nat) (r : Bytes) : CSame s (cSendClose s c r).1 := ⟨rfl, rfl, rfl, rfl, rfl, rfl, rfl⟩
+
+theorem cSendStep_same (s : CSess) (a : Send) : CSame s (cSendStep s a).1 := by
+  cases a with
+  | text bs => simp only [cSendStep, cSend_state]; exact CSame.rfl' s
+  | binary bs => simp only [cSendStep, cSend_state]; exact CSame.rfl' s
+  | ping bs => simp only [cSendStep, cSendPing_state]; exact CSame.rfl' s
+  | close c r => exact cSendClose_same s c r
+
+theorem cRunSends_same : ∀ (as : List Send) (s : CSess), CSame s (cRunSends s as).1 := by
+  intro as
+  induction as with
+  | nil => intro s; exact CSame.rfl' s
+  | cons a as ih => intro s; simp only [cRunSends]; exact (cSendStep_same s a).trans (ih _)
+
+theorem cFire_same (s : CSess) (e : CEv) (sc : List Send) : CSame s (cFire s e sc).1 := by
+  simp only [cFire]; exact cRunSends_same sc s
+
+theorem cDeliver_same (cb : CCbs) (s : CSess) (op : Nat) (pl : Bytes) : CSame s (cDeliver cb s op pl).1 := by
+  unfold cDeliver
+  split
+  · split
+    · exact cSendClose_same ..
+    · exact cFire_same ..
+  · split
+    · exact cFire_same ..
+    · exact CSame.rfl' s
+
+/-! ### the close discipline, compositionally (same scheme as the server's `Tr`) -/
+
+structure CTr (s : CSess) (ev : List CEv) (s' : CSess) : Prop where
+  nodata : s.closeSent = true → NoDataC ev
+  mono : s.closeSent = true → s'.closeSent = true
+  close : ev.any isCloseSendC = true → s'.closeSent = true
+  ndac : NoDataAfterCloseC ev
+
+theorem NoDataC_nil : NoDataC [] := by intro e h; cases h
+theorem NoDataC_cons {e : CEv} {a : List CEv} (he : isDataSendC e = false) (ha : NoDataC a) : NoDataC (e :: a) := by
+  intro e' h
+  rcases List.mem_cons.mp h with h | h
+  · subst h; exact he
+  · exact ha e' h
+
+theorem CTr.comp {s s1 s2 : CSess} {e1 e2 : List CEv} (h1 : CTr s e1 s1) (h2 : CTr s1 e2 s2) : CTr s (e1 ++ e2) s2 where
+  nodata h := NoDataC_append (h1.nodata h) (h2.nodata (h1.mono h))
+  mono h := h2.mono (h1.mono h)
+  close h := by
+    simp only [List.any_append, Bool.or_eq_true] at h
+    rcases h with h | h
+    · exact h2.mono (h1.close h)
+    · exact h2.close h
+  ndac := by
+    apply NoDataAfterCloseC_append _ _ h1.ndac h2.ndac
+    intro ⟨e, he, hce⟩
+    exact h2.nodata (h1.close (List.any_eq_true.mpr ⟨e, he, hce⟩))
+
+theorem CTr.state {s s' : CSess} (h : s.closeSent = true → s'.closeSent = true) : CTr s [] s' where
+  nodata _ := NoDataC_nil
+  mono := h
+  close h := by simp at h
+  ndac := trivial
+
+theorem CTr.refl (s : CSess) : CTr s [] s := CTr.state id
+
+theorem CTr.ev (s : CSess) (e : CEv) (hd : isDataSendC e = false) (hc : isCloseSendC e = false) : CTr s [e] s where
+  nodata _ := NoDataC_cons hd NoDataC_nil
+  mono := id
+  close h := by simp [hc] at h
+  ndac := ⟨fun _ => NoDataC_nil, trivial⟩
+
+theorem CTr.cSendClose (s : CSess) (c : Nat) (r : Bytes) : CTr s (cSendClose s c r).2 (cSendClose s c r).1 where
+  nodata _ := NoDataC_cons rfl NoDataC_nil
+  mono _ := rfl
+  close _ := rfl
+  ndac := ⟨fun _ => NoDataC_nil, trivial⟩
+
+theorem CTr.cSend (s : CSess) (op : Nat) (pl : Bytes) (h8 : op ≠ 8) : CTr s (cSend s op pl).2 (cSend s op pl).1 := by
+  rw [cSend_state]
+  unfold Iora.Ws.cSend
+  split
+  · exact CTr.refl s
+  · split
+    · exact CTr.refl s
+    · rename_i hc
+      refine ⟨fun h => absurd h hc, id, ?_, ⟨fun _ => NoDataC_nil, trivial⟩⟩
+      intro h; simp [isCloseSendC, h8] at h
+
+theorem CTr.cSendStep (s : CSess) (a : Send) : CTr s (cSendStep s a).2 (cSendStep s a).1 := by
+  cases a with
+  | text bs => exact CTr.cSend s 1 bs (by omega)
+  | binary bs => exact CTr.cSend s 2 bs (by omega)
+  | ping bs =>
+    simp only [Iora.Ws.cSendStep, cSendPing]
+    split
+    · exact CTr.refl s
+    · exact CTr.cSend s 9 bs (by omega)
+  | close c r => exact CTr.cSendClose s c r
+
+theorem CTr.cRunSends : ∀ (as : List Send) (s : CSess), CTr s (cRunSends s as).2 (cRunSends s as).1 := by
+  intro as
+  induction as with
+  | nil => intro s; exact CTr.refl s
+  | cons a as ih => intro s; simp only [Iora.Ws.cRunSends]; exact (CTr.cSendStep s a).comp (ih _)
+
+theorem CTr.cFire (s : CSess) (e : CEv) (sc : List Send) (hd : isDataSendC e = false) (hc : isCloseSendC e = false) :
+    CTr s (cFire s e sc).2 (cFire s e sc).1 := by
+  simp only [Iora.Ws.cFire]
+  exact (CTr.ev s e hd hc).comp (CTr.cRunSends sc s)
+
+theorem CTr.cDeliver (cb : CCbs) (s : CSess) (op : Nat) (pl : Bytes) : CTr s (cDeliver cb s op pl).2 (cDeliver cb s op pl).1 := by
+  unfold Iora.Ws.cDeliver
+  split
+  · split
+    · exact CTr.cSendClose ..
+    · exact CTr.cFire _ _ _ rfl rfl
+  · split
+    · exact CTr.cFire _ _ _ rfl rfl
+    · exact CTr.refl s
+
+theorem CTr.cFail (cb : CCbs) (s : CSess) (tl : Bool) : CTr s (cFail cb s tl).2 (cFail cb s tl).1 := by
+  simp only [Iora.Ws.cFail]
+  have h0 : CTr s [] { s with protocolFailed := true } := CTr.state id
+  have h1 := CTr.cSendClose { s with protocolFailed := true } (if tl then 1009 else 1002) (cstr (if tl then "Message Too Big" else "Protocol error"))
+  have h2 : CTr (Iora.Ws.cSendClose { s with protocolFailed := true } (if tl then 1009 else 1002) (cstr (if tl then "Message Too Big" else "Protocol error"))).1 []
+      { (Iora.Ws.cSendClose { s with protocolFailed := true } (if tl then 1009 else 1002) (cstr (if tl then "Message Too Big" else "Protocol error"))).1 with connected := false } := CTr.state id
+  have := ((h0.comp h1).comp h2).comp (CTr.cFire _ .onError cb.onError rfl rfl)
+  simpa using this
+
+@[simp] theorem cAccumulate_closeSent (s : CSess) (f : Frame) : (cAccumulate s f).closeSent = s.closeSent := by
+  unfold cAccumulate; split
+  · rfl
+  · split <;> rfl
+
+theorem CTr.cHandleDataFrame (cfg : CCfg) (s : CSess) (f : Frame) :
+    CTr s (cHandleDataFrame cfg s f).2 (cHandleDataFrame cfg s f).1 := by
+  unfold Iora.Ws.cHandleDataFrame
   simp only
-  repeat' split
-  all_goals simp [isDataSendC]
+  have hst : ∀ s1 : CSess, s1.closeSent = s.closeSent → CTr s [] s1 := by
+    intro s1 h1; apply CTr.state; rw [h1]; exact id
+  split
+  · have := (hst { cAccumulate s f with fragBuf := [], fragOp := 0 } (by simp)).comp (CTr.cFail cfg.cb _ true)
+    simpa using this
+  · split
+    · have := (hst { cAccumulate s f with fragBuf := [], fragOp := 0 } (by simp)).comp
+        (CTr.cDeliver cfg.cb _ (cAccumulate s f).fragOp (cAccumulate s f).fragBuf)
+      simpa using this
+    · exact hst _ (by simp)
 
-theorem cHandleFrame_closed (s : CSess) (f : Frame) (h : s.closeSent = true) : (cHandleFrame s f).1.closeSent = true := by
-  unfold cHandleFrame cHandleDataFrame cSendClose
-  simp only
-  repeat' split
-  all_goals simp_all
+theorem CTr.cHandleFrame (cfg : CCfg) (s : CSess) (f : Frame) :
+    CTr s (cHandleFrame cfg s f).2 (cHandleFrame cfg s f).1 := by
+  unfold Iora.Ws.cHandleFrame
+  split
+  · exact CTr.cHandleDataFrame cfg s f
+  · split
+    · exact CTr.ev s _ (by simp [isDataSendC]) (by simp [isCloseSendC])
+    · split
+      · exact CTr.refl s
+      · split
+        · simp only
+          have hecho : CTr s (if !s.closeEchoed then Iora.Ws.cSendClose { s with closeEchoed := true } (closePayload f.payload).1 (closePayload f.payload).2 else (s, [])).2
+              (if !s.closeEchoed then Iora.Ws.cSendClose { s with closeEchoed := true } (closePayload f.payload).1 (closePayload f.payload).2 else (s, [])).1 := by
+            split
+            · have h0 : CTr s [] { s with closeEchoed := true } := CTr.state id
+              simpa using h0.comp (CTr.cSendClose _ _ _)
+            · exact CTr.refl s
+          generalize (if !s.closeEchoed then Iora.Ws.cSendClose { s with closeEchoed := true } (closePayload f.payload).1 (closePayload f.payload).2 else (s, [])) = E at hecho ⊢
+          obtain ⟨s1, ev⟩ := E
+          have h2 : CTr s1 [] { s1 with connected := false } := CTr.state id
+          have := (hecho.comp h2).comp (CTr.cFire { s1 with connected := false } (.onClose (closePayload f.payload).1 (closePayload f.payload).2) cfg.cb.onClose rfl rfl)
+          simpa using this
+        · exact CTr.refl s
 
-theorem cHandleFrame_close (s : CSess) (f : Frame) (h : (cHandleFrame s f).2.any isCloseSendC = true) :
-    (cHandleFrame s f).1.closeSent = true := by
-  unfold cHandleFrame cHandleDataFrame cSendClose at *
-  simp only at *
-  repeat' split
-  all_goals (repeat' split at h)
-  all_goals simp_all [isCloseSendC]
-
-theorem cLoop_spec : ∀ (fuel : Nat) (s : CSess) (d : Bytes),
-    NoDataC (cLoop fuel s d).2.1 ∧
-    (s.closeSent = true → (cLoop fuel s d).1.closeSent = true) ∧
-    ((cLoop fuel s d).2.1.any isCloseSendC = true → (cLoop fuel s d).1.closeSent = true) := by
+theorem CTr.cLoop (cfg : CCfg) : ∀ (fuel : Nat) (s : CSess) (d : Bytes),
+    CTr s (cLoop cfg fuel s d).2.1 (cLoop cfg fuel s d).1 := by
   intro fuel
   induction fuel with
-  | zero => intro s d; simp [cLoop, NoDataC]
+  | zero => intro s d; exact CTr.refl s
   | succ fuel ih =>
     intro s d
-    unfold cLoop
+    unfold Iora.Ws.cLoop
     split
-    · simp [NoDataC]
+    · exact CTr.refl s
     · split
-      · simp [NoDataC]
-      · refine ⟨?_, ?_, ?_⟩
-        · rw [NoDataC_iff]; simp [cFail, cSendClose, isDataSendC]
-        · intro _; simp [cFail, cSendClose]
-        · intro _; simp [cFail, cSendClose]
-      · refine ⟨?_, ?_, ?_⟩
-        · rw [NoDataC_iff]; simp [cFail, cSendClose, isDataSendC]
-        · intro _; simp [cFail, cSendClose]
-        · intro _; simp [cFail, cSendClose]
+      · exact CTr.refl s
+      · exact CTr.cFail cfg.cb s false
+      · exact CTr.cFail cfg.cb s true
       · rename_i f n hp
-        obtain ⟨i1, i2, i3⟩ := ih (cHandleFrame s f).1 (d.drop n)
-        refine ⟨NoDataC_append (cHandleFrame_noData s f) i1, fun h => i2 (cHandleFrame_closed s f h), ?_⟩
-        intro h
-        simp only [List.any_append, Bool.or_eq_true] at h
-        rcases h with h | h
-        · exact i2 (cHandleFrame_close s f h)
-        · exact i3 h
+        simp only
+        split
+        · exact CTr.cHandleFrame cfg s f
+        · exact (CTr.cHandleFrame cfg s f).comp (ih _ _)
 
-theorem cOnData_spec (s : CSess) (data : Bytes) :
-    NoDataC (cOnData s data).2 ∧
-    (s.closeSent = true → (cOnData s data).1.closeSent = true) ∧
-    ((cOnData s data).2.any isCloseSendC = true → (cOnData s data).1.closeSent = true) := by
-  unfold cOnData
-  simp only
+theorem CTr.cFrames (cfg : CCfg) (s : CSess) (d : Bytes) : CTr s (cFrames cfg s d).2 (cFrames cfg s d).1 := by
+  unfold Iora.Ws.cFrames
   split
-  · simp [NoDataC]
-  · obtain ⟨i1, i2, i3⟩ := cLoop_spec ((s.buffer ++ data).length + 1) { s with buffer := [] } (s.buffer ++ data)
-    split
-    · exact ⟨i1, fun h => by simpa using i2 h, fun h => by simpa using i3 h⟩
-    · exact ⟨i1, i2, i3⟩
+  · exact CTr.refl s
+  · have h := CTr.cLoop cfg (d.length + 1) s d
+    rcases hL : Iora.Ws.cLoop cfg (d.length + 1) s d with ⟨s1, ev, r⟩
+    rw [hL] at h
+    simp only
+    cases r with
+    | none => exact h
+    | some rest => simpa using h.comp (CTr.state (s' := { s1 with buffer := rest }) id)
 
-theorem cStep_spec (s : CSess) (op : COp) :
-    (s.closeSent = true → NoDataC (cStep s op).2) ∧
-    (s.closeSent = true → (cStep s op).1.closeSent = true) ∧
-    ((cStep s op).2.any isCloseSendC = true → (cStep s op).1.closeSent = true) ∧
-    NoDataAfterCloseC (cStep s op).2 := by
+/-- the upgrade-response step sends nothing and changes neither the close flag nor the reassembly state -/
+theorem cHandshake_spec (cfg : CCfg) (s : CSess) (d : Bytes) :
+    match cHandshake cfg s d with
+    | .wait s1 => s1 = { s with buffer := d } ∧ d.length ≤ Gen.Ws.clientMaxUpgradeResponse
+    | .failed s1 ev => s1 = { s with connected := false } ∧ ev = [.onError]
+    | .ok s1 ev _ => s1 = { s with upgraded := true, connected := true } ∧ ev = [.connected] := by
+  unfold cHandshake
+  cases findSub crlf2 d with
+  | none =>
+    simp only
+    by_cases hl : d.length > Gen.Ws.clientMaxUpgradeResponse
+    · simp [hl]
+    · simp [hl]; omega
+  | some he =>
+    simp only
+    by_cases h1 : statusOk.isPrefixOf d = true
+    · by_cases h2 : acceptValue d he = cfg.accept
+      · simp [h1, h2]
+      · simp [h1, h2]
+    · simp [h1]
+
+theorem CTr.cOnData (cfg : CCfg) (s : CSess) (data : Bytes) : CTr s (cOnData cfg s data).2 (cOnData cfg s data).1 := by
+  unfold Iora.Ws.cOnData
+  simp only
+  have h0 : CTr s [] { s with buffer := [] } := CTr.state id
+  split
+  · simpa using h0.comp (CTr.cFrames cfg _ _)
+  · have hs := cHandshake_spec cfg { s with buffer := [] } (s.buffer ++ data)
+    cases hh : cHandshake cfg { s with buffer := [] } (s.buffer ++ data) with
+    | wait s1 =>
+      rw [hh] at hs
+      simp only
+      rw [hs.1]
+      exact CTr.state id
+    | failed s1 ev =>
+      rw [hh] at hs
+      obtain ⟨rfl, rfl⟩ := hs
+      simp only
+      simpa using (CTr.state (s := s) (s' := { { s with buffer := [] } with connected := false }) id).comp (CTr.ev _ .onError rfl rfl)
+    | ok s1 ev rest =>
+      rw [hh] at hs
+      obtain ⟨rfl, rfl⟩ := hs
+      simp only
+      have h1 : CTr s [] { { s with buffer := [] } with upgraded := true, connected := true } := CTr.state id
+      simpa using h1.comp ((CTr.ev _ .connected rfl rfl).comp (CTr.cFrames cfg _ rest))
+
+theorem CTr.cStep (cfg : CCfg) (s : CSess) (op : COp) : CTr s (cStep cfg s op).2 (cStep cfg s op).1 := by
   cases op with
-  | data bs =>
-    obtain ⟨i1, i2, i3⟩ := cOnData_spec s bs
-    exact ⟨fun _ => i1, i2, i3, NoDataAfterCloseC_of_NoData _ i1⟩
-  | sendClose c r =>
-    refine ⟨fun _ => ?_, fun _ => rfl, fun _ => rfl, ?_⟩
-    · rw [NoDataC_iff]; simp [cStep, cSendClose, isDataSendC]
-    · apply NoDataAfterCloseC_of_NoData; rw [NoDataC_iff]; simp [cStep, cSendClose, isDataSendC]
-  | sendText bs =>
-    simp only [cStep, cSend]
-    refine ⟨?_, ?_, ?_, ?_⟩
-    · intro h; repeat' split
-      all_goals simp_all [NoDataC]
-    · intro h; repeat' split
-      all_goals exact h
-    · intro h; repeat' split at h
-      all_goals simp_all [isCloseSendC]
-    · repeat' split
-      all_goals simp [NoDataAfterCloseC, NoDataC]
-  | sendBinary bs =>
-    simp only [cStep, cSend]
-    refine ⟨?_, ?_, ?_, ?_⟩
-    · intro h; repeat' split
-      all_goals simp_all [NoDataC]
-    · intro h; repeat' split
-      all_goals exact h
-    · intro h; repeat' split at h
-      all_goals simp_all [isCloseSendC]
-    · repeat' split
-      all_goals simp [NoDataAfterCloseC, NoDataC]
-  | sendPing bs =>
-    simp only [cStep, cSend]
-    refine ⟨?_, ?_, ?_, ?_⟩
-    · intro h; repeat' split
-      all_goals simp_all [NoDataC]
-    · intro h; repeat' split
-      all_goals exact h
-    · intro h; repeat' split at h
-      all_goals simp_all [isCloseSendC]
-    · repeat' split
-      all_goals simp [NoDataAfterCloseC, NoDataC]
+  | data bs => exact CTr.cOnData cfg s bs
+  | sendClose c r => exact CTr.cSendStep s _
+  | sendText bs => exact CTr.cSendStep s _
+  | sendBinary bs => exact CTr.cSendStep s _
+  | sendPing bs => exact CTr.cSendStep s _
 
-/-- client: for every operation history, after a close frame has been handed to the transport no data frame follows -/
-theorem cRun_noDataAfterClose : ∀ (ops : List COp) (s : CSess),
-    (s.closeSent = true → NoDataC (cRun s ops).2) ∧ NoDataAfterCloseC (cRun s ops).2 := by
+theorem CTr.cRun (cfg : CCfg) : ∀ (ops : List COp) (s : CSess), CTr s (cRun cfg s ops).2 (cRun cfg s ops).1 := by
   intro ops
   induction ops with
-  | nil => intro s; simp [cRun, NoDataC, NoDataAfterCloseC]
-  | cons op ops ih =>
-    intro s
-    obtain ⟨j1, j2, j3, j4⟩ := cStep_spec s op
-    obtain ⟨k1, k2⟩ := ih (cStep s op).1
-    simp only [cRun]
-    refine ⟨fun h => NoDataC_append (j1 h) (k1 (j2 h)), ?_⟩
-    apply NoDataAfterCloseC_append _ _ j4 k2
-    intro ⟨e, he, hce⟩
-    apply k1
-    apply j3
-    simp only [List.any_eq_true]
-    exact ⟨e, he, hce⟩
+  | nil => intro s; exact CTr.refl s
+  | cons op ops ih => intro s; simp only [Iora.Ws.cRun]; exact (CTr.cStep cfg s op).comp (ih _)
 
-end Iora.Ws
+/-- client: for every operation history (incl. re-entrant sends from callbacks and the upgrade response), after a close
+frame has been handed to the transport no data frame follows -/
+theorem cRun_noDataAfterClose (cfg : CCfg) (ops : List COp) (s : CSess) : NoDataAfterCloseC (cRun cfg s ops).2 :=
+  (CTr.cRun cfg ops s).ndac
 
-namespace Iora.Ws
-open Iora Iora.Framing
+/-! ### the frame loop as a fold of the per-frame handler -/
 
-abbrev cmax : Nat := clientMaxPayload
-
-def cInterp1 (s : CSess) : PRes → CSess × List CEv
-  | .frame f _ => cHandleFrame s f
-  | .protocolError => cFail s false
-  | .tooLarge => cFail s true
+def cInterp1 (cfg : CCfg) (s : CSess) : PRes → CSess × List CEv
+  | .frame f _ => cHandleFrame cfg s f
+  | .protocolError => cFail cfg.cb s false
+  | .tooLarge => cFail cfg.cb s true
   | .incomplete => (s, [])
 
-def cInterp : CSess → List PRes → CSess × List CEv
+/-- the per-frame handler folded over parse outcomes; whatever reaches a connection that has been failed is ignored -/
+def cInterp (cfg : CCfg) : CSess → List PRes → CSess × List CEv
   | s, [] => (s, [])
   | s, r :: rs =>
-    let (s1, e1) := cInterp1 s r
-    let (s2, e2) := cInterp s1 rs
+    if s.protocolFailed then (s, []) else
+    let (s1, e1) := cInterp1 cfg s r
+    let (s2, e2) := cInterp cfg s1 rs
     (s2, e1 ++ e2)
 
-theorem cLoop_eq_interp : ∀ (fuel : Nat) (s : CSess) (d : Bytes),
-    cLoop fuel s d =
-      ((cInterp s (drainF (wsStable cmax) fuel d).1).1, (cInterp s (drainF (wsStable cmax) fuel d).1).2,
-        carryOpt (drainF (wsStable cmax) fuel d).2) := by
+theorem cInterp_failed (cfg : CCfg) (s : CSess) (rs : List PRes) (h : s.protocolFailed = true) : cInterp cfg s rs = (s, []) := by
+  cases rs <;> simp [cInterp, h]
+
+theorem cFail_failed (cb : CCbs) (s : CSess) (tl : Bool) : (cFail cb s tl).1.protocolFailed = true := by
+  simp only [cFail]
+  rw [(cFire_same _ _ _).2.2.2.2.1]
+  rfl
+
+theorem cLoop_eq_interp (cfg : CCfg) : ∀ (fuel : Nat) (s : CSess) (d : Bytes), s.protocolFailed = false →
+    (cLoop cfg fuel s d).1 = (cInterp cfg s (drainF (wsStable cfg.max) fuel d).1).1 ∧
+    (cLoop cfg fuel s d).2.1 = (cInterp cfg s (drainF (wsStable cfg.max) fuel d).1).2 ∧
+    ((cInterp cfg s (drainF (wsStable cfg.max) fuel d).1).1.protocolFailed = false →
+      (cLoop cfg fuel s d).2.2 = carryOpt (drainF (wsStable cfg.max) fuel d).2) := by
   intro fuel
   induction fuel with
-  | zero => intro s d; simp [cLoop, drainF, cInterp, carryOpt]
+  | zero => intro s d _; simp [cLoop, drainF, cInterp, carryOpt]
   | succ fuel ih =>
-    intro s d
+    intro s d hpf
     unfold cLoop drainF
     by_cases he : d.isEmpty = true
     · have : d = [] := by simpa using he
@@ -217,204 +379,521 @@ theorem cLoop_eq_interp : ∀ (fuel : Nat) (s : CSess) (d : Bytes),
       simp [wsStable, pws, parse, cInterp, carryOpt]
     · simp only [he, Bool.false_eq_true, ↓reduceIte]
       simp only [wsStable, pws]
-      cases hp : parse clientMaxPayload d with
-      | incomplete => simp [cInterp, carryOpt, cmax, hp]
-      | protocolError => simp [cInterp, cInterp1, carryOpt, cmax, hp]
-      | tooLarge => simp [cInterp, cInterp1, carryOpt, cmax, hp]
+      cases hp : parse cfg.max d with
+      | incomplete => simp [cInterp, carryOpt]
+      | protocolError =>
+        simp only [cInterp, cInterp1, hpf, Bool.false_eq_true, ↓reduceIte, List.append_nil, true_and]
+        intro h; rw [cFail_failed] at h; cases h
+      | tooLarge =>
+        simp only [cInterp, cInterp1, hpf, Bool.false_eq_true, ↓reduceIte, List.append_nil, true_and]
+        intro h; rw [cFail_failed] at h; cases h
       | frame f n =>
-        simp only [cmax, hp]
-        rw [ih]
-        simp [cInterp, cInterp1, wsStable, pws, cmax]
+        simp only [cInterp, cInterp1, hpf, Bool.false_eq_true, ↓reduceIte]
+        by_cases hf : (cHandleFrame cfg s f).1.protocolFailed = true
+        · simp only [hf, ↓reduceIte]
+          rw [cInterp_failed cfg _ _ hf]
+          simp only [List.append_nil, true_and]
+          intro h; rw [hf] at h; cases h
+        · have hf' : (cHandleFrame cfg s f).1.protocolFailed = false := by simpa using hf
+          simp only [hf', Bool.false_eq_true, ↓reduceIte]
+          obtain ⟨i1, i2, i3⟩ := ih (cHandleFrame cfg s f).1 (d.drop n) hf'
+          simp only [wsStable, pws] at i1 i2 i3
+          exact ⟨i1, by rw [i2], i3⟩
 
-theorem cInterp_append : ∀ (a b : List PRes) (s : CSess),
-    cInterp s (a ++ b) = ((cInterp (cInterp s a).1 b).1, (cInterp s a).2 ++ (cInterp (cInterp s a).1 b).2) := by
+theorem cInterp_append (cfg : CCfg) : ∀ (a b : List PRes) (s : CSess),
+    cInterp cfg s (a ++ b) =
+      ((cInterp cfg (cInterp cfg s a).1 b).1, (cInterp cfg s a).2 ++ (cInterp cfg (cInterp cfg s a).1 b).2) := by
   intro a
   induction a with
   | nil => intro b s; simp [cInterp]
-  | cons r rs ih => intro b s; simp [cInterp, ih, List.append_assoc]
+  | cons r rs ih =>
+    intro b s
+    by_cases hpf : s.protocolFailed = true
+    · simp [cInterp, hpf, cInterp_failed cfg s b hpf]
+    · simp [cInterp, hpf, ih, List.append_assoc]
 
-theorem cHandleFrame_keeps (s : CSess) (f : Frame) :
-    (cHandleFrame s f).1.buffer = s.buffer ∧ (cHandleFrame s f).1.protocolFailed = s.protocolFailed := by
-  unfold cHandleFrame cHandleDataFrame cSendClose
+@[simp] theorem cAccumulate_buffer (s : CSess) (f : Frame) : (cAccumulate s f).buffer = s.buffer := by
+  unfold cAccumulate; split
+  · rfl
+  · split <;> rfl
+@[simp] theorem cAccumulate_upgraded (s : CSess) (f : Frame) : (cAccumulate s f).upgraded = s.upgraded := by
+  unfold cAccumulate; split
+  · rfl
+  · split <;> rfl
+@[simp] theorem cAccumulate_protocolFailed (s : CSess) (f : Frame) : (cAccumulate s f).protocolFailed = s.protocolFailed := by
+  unfold cAccumulate; split
+  · rfl
+  · split <;> rfl
+
+theorem cFail_keeps (cb : CCbs) (s : CSess) (tl : Bool) :
+    (cFail cb s tl).1.buffer = s.buffer ∧ (cFail cb s tl).1.upgraded = s.upgraded ∧
+    (cFail cb s tl).1.fragBuf = s.fragBuf := by
+  simp only [cFail]
+  obtain ⟨h1, h2, _, _, _, _, h7⟩ := cFire_same { (cSendClose { s with protocolFailed := true } (if tl then 1009 else 1002) (cstr (if tl then "Message Too Big" else "Protocol error"))).1 with connected := false } .onError cb.onError
+  exact ⟨by rw [h1]; rfl, by rw [h7]; rfl, by rw [h2]; rfl⟩
+
+/-- what every frame handler leaves alone / guarantees -/
+theorem cHandleDataFrame_keeps (cfg : CCfg) (s : CSess) (f : Frame) :
+    (cHandleDataFrame cfg s f).1.buffer = s.buffer ∧ (cHandleDataFrame cfg s f).1.upgraded = s.upgraded ∧
+    ((cHandleDataFrame cfg s f).1.fragBuf.length ≤ cfg.max) := by
+  unfold cHandleDataFrame
   simp only
-  repeat' split
-  all_goals simp_all
+  split
+  · obtain ⟨h1, h2, h3⟩ := cFail_keeps cfg.cb { cAccumulate s f with fragBuf := [], fragOp := 0 } true
+    exact ⟨by rw [h1]; simp, by rw [h2]; simp, by rw [h3]; simp⟩
+  · split
+    · obtain ⟨h1, h2, _, _, _, _, h7⟩ := cDeliver_same cfg.cb { cAccumulate s f with fragBuf := [], fragOp := 0 } (cAccumulate s f).fragOp (cAccumulate s f).fragBuf
+      exact ⟨by rw [h1]; simp, by rw [h7]; simp, by rw [h2]; simp⟩
+    · exact ⟨by simp, by simp, by show (cAccumulate s f).fragBuf.length ≤ cfg.max; omega⟩
 
-theorem cInterp_keeps : ∀ (fs : List Frame) (s : CSess),
-    (cInterp s (fs.map toP)).1.buffer = s.buffer ∧ (cInterp s (fs.map toP)).1.protocolFailed = s.protocolFailed := by
+theorem cHandleFrame_keeps (cfg : CCfg) (s : CSess) (f : Frame) (hfr : s.fragBuf.length ≤ cfg.max) :
+    (cHandleFrame cfg s f).1.buffer = s.buffer ∧ (cHandleFrame cfg s f).1.upgraded = s.upgraded ∧
+    ((cHandleFrame cfg s f).1.fragBuf.length ≤ cfg.max) := by
+  unfold cHandleFrame
+  split
+  · exact cHandleDataFrame_keeps cfg s f
+  · split
+    · exact ⟨rfl, rfl, hfr⟩
+    · split
+      · exact ⟨rfl, rfl, hfr⟩
+      · split
+        · simp only
+          generalize hE : (if !s.closeEchoed then cSendClose { s with closeEchoed := true } (closePayload f.payload).1 (closePayload f.payload).2 else (s, [])) = E
+          have hE' : E.1.buffer = s.buffer ∧ E.1.upgraded = s.upgraded ∧ E.1.fragBuf = s.fragBuf := by
+            subst hE; split <;> exact ⟨rfl, rfl, rfl⟩
+          obtain ⟨s1, ev⟩ := E
+          obtain ⟨h1, h2, _, _, _, _, h7⟩ := cFire_same { s1 with connected := false } (.onClose (closePayload f.payload).1 (closePayload f.payload).2) cfg.cb.onClose
+          simp only at hE' ⊢
+          exact ⟨by rw [h1]; exact hE'.1, by rw [h7]; exact hE'.2.1, by rw [h2]; simp only; rw [hE'.2.2]; exact hfr⟩
+        · exact ⟨rfl, rfl, hfr⟩
+
+theorem cInterp_keeps (cfg : CCfg) : ∀ (fs : List Frame) (s : CSess), s.fragBuf.length ≤ cfg.max →
+    (cInterp cfg s (fs.map toP)).1.buffer = s.buffer ∧ (cInterp cfg s (fs.map toP)).1.upgraded = s.upgraded ∧
+    (cInterp cfg s (fs.map toP)).1.fragBuf.length ≤ cfg.max := by
   intro fs
   induction fs with
-  | nil => intro s; simp [cInterp]
+  | nil => intro s h; exact ⟨rfl, rfl, h⟩
   | cons f fs ih =>
-    intro s
+    intro s h
     simp only [List.map_cons, cInterp, toP, cInterp1]
-    have h1 := cHandleFrame_keeps s f
-    have h2 := ih (cHandleFrame s f).1
-    exact ⟨h2.1.trans h1.1, h2.2.trans h1.2⟩
+    split
+    · exact ⟨rfl, rfl, h⟩
+    · obtain ⟨h1, h2, h3⟩ := cHandleFrame_keeps cfg s f h
+      obtain ⟨g1, g2, g3⟩ := ih (cHandleFrame cfg s f).1 h3
+      exact ⟨g1.trans h1, g2.trans h2, g3⟩
 
-theorem cOnData_eq (s : CSess) (data : Bytes) (hf : s.protocolFailed = false) :
-    cOnData s data =
-      (match carryOpt (drain (wsStable cmax) (s.buffer ++ data)).2 with
-        | some rest => { (cInterp { s with buffer := [] } (drain (wsStable cmax) (s.buffer ++ data)).1).1 with buffer := rest }
-        | none => (cInterp { s with buffer := [] } (drain (wsStable cmax) (s.buffer ++ data)).1).1,
-       (cInterp { s with buffer := [] } (drain (wsStable cmax) (s.buffer ++ data)).1).2) := by
-  unfold cOnData
-  simp only [hf, Bool.false_eq_true, ↓reduceIte]
-  rw [cLoop_eq_interp]
-  simp only [drain]
-  cases carryOpt (drainF (wsStable cmax) ((s.buffer ++ data).length + 1) (s.buffer ++ data)).2 <;> rfl
+/-- a failed loop returns no remainder -/
+theorem cLoop_failed_none (cfg : CCfg) : ∀ (fuel : Nat) (s : CSess) (d : Bytes), s.protocolFailed = false →
+    (cLoop cfg fuel s d).1.protocolFailed = true → (cLoop cfg fuel s d).2.2 = none := by
+  intro fuel
+  induction fuel with
+  | zero => intro s d h1 h2; simp [cLoop, h1] at h2
+  | succ fuel ih =>
+    intro s d h1 h2
+    rw [cLoop] at h2 ⊢
+    by_cases he : d.isEmpty = true
+    · simp [he, h1] at h2
+    · simp only [he, Bool.false_eq_true, ↓reduceIte] at h2 ⊢
+      cases hp : parse cfg.max d with
+      | incomplete => simp [hp, h1] at h2
+      | protocolError => simp
+      | tooLarge => simp
+      | frame f n =>
+        simp only [hp] at h2 ⊢
+        by_cases hh : (cHandleFrame cfg s f).1.protocolFailed = true
+        · simp [hh]
+        · simp only [hh, Bool.false_eq_true, ↓reduceIte] at h2 ⊢
+          exact ih _ _ (by simpa using hh) h2
 
-/-- **Client-level segmentation independence** (no restriction on where CLOSE frames are: the client keeps parsing). -/
-theorem cRun_data_eq : ∀ (ss : List Bytes) (s : CSess) (fs : List Frame),
-    ValidFrames cmax fs → s.protocolFailed = false → s.buffer ++ ss.flatten = stream fs →
-    parse cmax s.buffer = .incomplete →
-    (cRun s (ss.map COp.data)).2 = (cInterp { s with buffer := [] } (fs.map toP)).2 := by
+theorem cFrames_spec (cfg : CCfg) (s : CSess) (d : Bytes) (hf : s.protocolFailed = false) :
+    (cFrames cfg s d).2 = (cInterp cfg s (drain (wsStable cfg.max) d).1).2 ∧
+    ((cInterp cfg s (drain (wsStable cfg.max) d).1).1.protocolFailed = true →
+      (cFrames cfg s d).1 = (cInterp cfg s (drain (wsStable cfg.max) d).1).1) ∧
+    ((cInterp cfg s (drain (wsStable cfg.max) d).1).1.protocolFailed = false →
+      (cFrames cfg s d).1 = match carryOpt (drain (wsStable cfg.max) d).2 with
+        | some rest => { (cInterp cfg s (drain (wsStable cfg.max) d).1).1 with buffer := rest }
+        | none => (cInterp cfg s (drain (wsStable cfg.max) d).1).1) := by
+  obtain ⟨i1, i2, i3⟩ := cLoop_eq_interp cfg (d.length + 1) s d hf
+  have hn := cLoop_failed_none cfg (d.length + 1) s d hf
+  unfold cFrames
+  simp only [hf, Bool.false_eq_true, ↓reduceIte, drain]
+  rcases hL : cLoop cfg (d.length + 1) s d with ⟨s1, ev, r⟩
+  rw [hL] at i1 i2 i3 hn
+  simp only at i1 i2 i3 hn ⊢
+  refine ⟨?_, ?_, ?_⟩
+  · rw [← i2]; cases r <;> rfl
+  · intro h
+    rw [← i1] at h ⊢
+    rw [hn h]
+  · intro h
+    rw [← i3 h, ← i1]
+    cases r <;> rfl
+
+theorem cOnData_upgraded (cfg : CCfg) (s : CSess) (data : Bytes) (hu : s.upgraded = true) :
+    cOnData cfg s data = cFrames cfg { s with buffer := [] } (s.buffer ++ data) := by
+  simp [cOnData, hu]
+
+theorem cRun_failed (cfg : CCfg) : ∀ (ss : List Bytes) (s : CSess), s.protocolFailed = true → s.upgraded = true →
+    (cRun cfg s (ss.map COp.data)).2 = [] := by
+  intro ss
+  induction ss with
+  | nil => intro s _ _; rfl
+  | cons x xs ih =>
+    intro s h hu
+    simp only [List.map_cons, cRun, cStep, cOnData_upgraded cfg s x hu]
+    have : cFrames cfg { s with buffer := [] } (s.buffer ++ x) = ({ s with buffer := [] }, []) := by
+      simp [cFrames, h]
+    rw [this]
+    exact ih _ h hu
+
+/-- **Client-level segmentation independence** (no restriction on where CLOSE frames are or on message sizes: the client
+keeps parsing after a CLOSE, and once it has failed the connection nothing is dispatched any more, in the same read or later). -/
+theorem cRun_data_eq (cfg : CCfg) : ∀ (ss : List Bytes) (s : CSess) (fs : List Frame),
+    ValidFrames cfg.max fs → s.protocolFailed = false → s.upgraded = true → s.fragBuf.length ≤ cfg.max →
+    s.buffer ++ ss.flatten = stream fs → parse cfg.max s.buffer = .incomplete →
+    (cRun cfg s (ss.map COp.data)).2 = (cInterp cfg { s with buffer := [] } (fs.map toP)).2 := by
   intro ss
   induction ss with
   | nil =>
-    intro s fs hv hpf hb hinc
+    intro s fs hv hpf hu hfr hb hinc
     simp only [List.flatten_nil, List.append_nil] at hb
     have : fs = [] := by
       cases fs with
       | nil => rfl
       | cons f fs' =>
         obtain ⟨hf, hfm⟩ := hv f (List.mem_cons_self ..)
-        have hrt := roundtrip cmax f (stream fs') hf hfm
+        have hrt := roundtrip cfg.max f (stream fs') hf hfm
         simp only [stream, List.flatMap_cons] at hb hrt
         rw [hb, hrt] at hinc; cases hinc
     subst this
     simp [cRun, cInterp]
   | cons seg ss ih =>
-    intro s fs hv hpf hb hinc
+    intro s fs hv hpf hu hfr hb hinc
     simp only [List.flatten_cons, ← List.append_assoc] at hb
-    have hgood : Good cmax (s.buffer ++ seg ++ ss.flatten) := hb ▸ good_stream cmax fs hv
-    have hgd : Good cmax (s.buffer ++ seg) := (wsStable cmax).g_prefix _ _ hgood
-    obtain ⟨fs1, rest1, e1, e2, e3⟩ := drainF_good cmax ((s.buffer ++ seg).length + 1) (s.buffer ++ seg) (by omega) hgd
-    have hd1 : drain (wsStable cmax) (s.buffer ++ seg) = (fs1.map toP, .alive rest1) := e1
-    have hg2 : Good cmax (rest1 ++ ss.flatten) :=
-      drainF_carry_good (wsStable cmax) ((s.buffer ++ seg).length + 1) (s.buffer ++ seg) ss.flatten (by omega) hgood rest1 (by rw [e1])
-    obtain ⟨fs2, rest2, f1, f2, f3⟩ := drainF_good cmax ((rest1 ++ ss.flatten).length + 1) (rest1 ++ ss.flatten) (by omega) hg2
-    have hd2 : drain (wsStable cmax) (rest1 ++ ss.flatten) = (fs2.map toP, .alive rest2) := f1
-    have happ := drainF_append (wsStable cmax) ((s.buffer ++ seg).length + 1) (s.buffer ++ seg) ss.flatten (by omega) hgood
+    have hgood : Good cfg.max (s.buffer ++ seg ++ ss.flatten) := hb ▸ good_stream cfg.max fs hv
+    have hgd : Good cfg.max (s.buffer ++ seg) := (wsStable cfg.max).g_prefix _ _ hgood
+    obtain ⟨fs1, rest1, e1, e2, e3⟩ := drainF_good cfg.max ((s.buffer ++ seg).length + 1) (s.buffer ++ seg) (by omega) hgd
+    have hd1 : drain (wsStable cfg.max) (s.buffer ++ seg) = (fs1.map toP, .alive rest1) := e1
+    have hg2 : Good cfg.max (rest1 ++ ss.flatten) :=
+      drainF_carry_good (wsStable cfg.max) ((s.buffer ++ seg).length + 1) (s.buffer ++ seg) ss.flatten (by omega) hgood rest1 (by rw [e1])
+    obtain ⟨fs2, rest2, f1, f2, f3⟩ := drainF_good cfg.max ((rest1 ++ ss.flatten).length + 1) (rest1 ++ ss.flatten) (by omega) hg2
+    have hd2 : drain (wsStable cfg.max) (rest1 ++ ss.flatten) = (fs2.map toP, .alive rest2) := f1
+    have happ := drainF_append (wsStable cfg.max) ((s.buffer ++ seg).length + 1) (s.buffer ++ seg) ss.flatten (by omega) hgood
     rw [e1] at happ
     simp only [resume, hd2] at happ
-    rw [hb, drain_stream cmax fs hv] at happ
+    rw [hb, drain_stream cfg.max fs hv] at happ
     simp only [Prod.mk.injEq, Carry.alive.injEq] at happ
-    obtain ⟨hfr, hr2⟩ := happ
-    have hfs : fs = fs1 ++ fs2 := map_toP_inj _ _ (by rw [List.map_append]; exact hfr)
+    obtain ⟨hfr2, hr2⟩ := happ
+    have hfs : fs = fs1 ++ fs2 := map_toP_inj _ _ (by rw [List.map_append]; exact hfr2)
     subst hr2
     simp only [List.append_nil] at f2
-    simp only [List.map_cons, cRun, cStep]
-    rw [cOnData_eq s seg hpf, hd1]
-    simp only [carryOpt]
-    have hk := cInterp_keeps fs1 { s with buffer := [] }
-    have hv2 : ValidFrames cmax fs2 := fun f hf => hv f (by rw [hfs]; exact List.mem_append_right _ hf)
-    rw [hfs, List.map_append, cInterp_append]
-    generalize cInterp { s with buffer := [] } (fs1.map toP) = I at hk ⊢
+    simp only [List.map_cons, cRun, cStep, cOnData_upgraded cfg s seg hu]
+    obtain ⟨c1, c2, c3⟩ := cFrames_spec cfg { s with buffer := [] } (s.buffer ++ seg) hpf
+    rw [hd1] at c1 c2 c3
+    simp only [carryOpt] at c3
+    have hk := cInterp_keeps cfg fs1 { s with buffer := [] } hfr
+    have hv2 : ValidFrames cfg.max fs2 := fun f hf => hv f (by rw [hfs]; exact List.mem_append_right _ hf)
+    rw [hfs, List.map_append, cInterp_append, c1]
+    generalize cInterp cfg { s with buffer := [] } (fs1.map toP) = I at hk c2 c3 ⊢
     obtain ⟨s1, ev1⟩ := I
-    obtain ⟨bf, fb, fo, ce, pf, cs, cn⟩ := s1
-    simp only at hk ⊢
-    obtain ⟨hk1, hk2⟩ := hk
-    subst hk1
+    simp only at hk c2 c3 ⊢
+    obtain ⟨hk1, hk2, hk3⟩ := hk
     congr 1
-    exact ih { buffer := rest1, fragBuf := fb, fragOp := fo, closeEchoed := ce, protocolFailed := pf, closeSent := cs, connected := cn }
-      fs2 hv2 (by simpa [hpf] using hk2) f2 e3
+    by_cases hpf1 : s1.protocolFailed = true
+    · rw [c2 hpf1, cRun_failed cfg ss s1 hpf1 (by rw [hk2]; exact hu), cInterp_failed cfg s1 _ hpf1]
+    · have hpf1' : s1.protocolFailed = false := by simpa using hpf1
+      rw [c3 hpf1']
+      have := ih { s1 with buffer := rest1 } fs2 hv2 hpf1' (by simpa using hk2.trans hu) hk3 f2 e3
+      rw [this]
+      have hs1 : ({ { s1 with buffer := rest1 } with buffer := [] } : CSess) = s1 := by
+        obtain ⟨bf, fb, fo, ce, pf, cs, cn, up⟩ := s1
+        simp only at hk1
+        simp [hk1]
+      rw [hs1]
 
-/-- client reassembly: same statement as the server's, without a size limit on the message -/
-def cDeliverEv (op : Nat) (pl : Bytes) : List CEv :=
-  if op = 1 then (if isValidUtf8 pl then [.text pl] else [.sent 8 true (b8 (1007 / 256) :: b8 1007 :: cstr "Invalid UTF-8")])
-  else [.binary pl]
+/-! ### bounded buffering (unparsed remainder, pending upgrade response, fragment buffer) -/
+
+theorem cLoop_bufs (cfg : CCfg) : ∀ (fuel : Nat) (s : CSess) (d : Bytes), d.length < fuel → s.buffer = [] →
+    s.fragBuf.length ≤ cfg.max →
+    (cLoop cfg fuel s d).1.buffer = [] ∧ (cLoop cfg fuel s d).1.fragBuf.length ≤ cfg.max ∧
+    (cLoop cfg fuel s d).1.upgraded = s.upgraded ∧
+    ∀ r, (cLoop cfg fuel s d).2.2 = some r → r.length < 14 + cfg.max := by
+  intro fuel
+  induction fuel with
+  | zero => intro s d h; omega
+  | succ fuel ih =>
+    intro s d hf hb hfr
+    unfold cLoop
+    split
+    · rename_i he
+      refine ⟨hb, hfr, rfl, ?_⟩
+      intro r hr; cases hr
+      simp at he; subst he; simp; omega
+    · split
+      · rename_i hp
+        refine ⟨hb, hfr, rfl, ?_⟩
+        intro r hr; cases hr
+        exact parse_incomplete_short' cfg.max d hp
+      · obtain ⟨h1, h2, h3⟩ := cFail_keeps cfg.cb s false
+        exact ⟨h1.trans hb, by rw [h3]; exact hfr, h2, by intro r hr; cases hr⟩
+      · obtain ⟨h1, h2, h3⟩ := cFail_keeps cfg.cb s true
+        exact ⟨h1.trans hb, by rw [h3]; exact hfr, h2, by intro r hr; cases hr⟩
+      · rename_i f n hp
+        obtain ⟨h2, hnl, _, _⟩ := parse_frame_bounds cfg.max d f n hp
+        have hl : (d.drop n).length < fuel := by simp [List.length_drop]; omega
+        obtain ⟨k1, k2, k3⟩ := cHandleFrame_keeps cfg s f hfr
+        simp only
+        split
+        · exact ⟨k1.trans hb, k3, k2, by intro r hr; cases hr⟩
+        · obtain ⟨g1, g2, g3, g4⟩ := ih (cHandleFrame cfg s f).1 (d.drop n) hl (k1.trans hb) k3
+          exact ⟨g1, g2, g3.trans k2, g4⟩
+
+theorem cFrames_bounded (cfg : CCfg) (s : CSess) (d : Bytes) (hb : s.buffer = []) (hfr : s.fragBuf.length ≤ cfg.max) :
+    (cFrames cfg s d).1.buffer.length < 14 + cfg.max ∧ (cFrames cfg s d).1.fragBuf.length ≤ cfg.max ∧
+    (cFrames cfg s d).1.upgraded = s.upgraded := by
+  unfold cFrames
+  split
+  · exact ⟨by rw [hb]; simp; omega, hfr, rfl⟩
+  · obtain ⟨h1, h2, h3, h4⟩ := cLoop_bufs cfg (d.length + 1) s d (by omega) hb hfr
+    rcases hL : cLoop cfg (d.length + 1) s d with ⟨s1, ev, r⟩
+    rw [hL] at h1 h2 h3 h4
+    simp only at h1 h2 h3 h4 ⊢
+    cases r with
+    | none => exact ⟨by rw [h1]; simp; omega, h2, h3⟩
+    | some rest => exact ⟨h4 rest rfl, h2, h3⟩
+
+/-- the client's invariant: a connected client retains fewer than `14 + max` unparsed bytes, a client still waiting for
+the upgrade response at most `kMaxUpgradeResponse`; the fragment buffer never exceeds `max` -/
+def CBounded (cfg : CCfg) (s : CSess) : Prop :=
+  (s.upgraded = true → s.buffer.length < 14 + cfg.max) ∧
+  (s.upgraded = false → s.buffer.length ≤ Gen.Ws.clientMaxUpgradeResponse) ∧
+  s.fragBuf.length ≤ cfg.max
+
+theorem cOnData_bounded (cfg : CCfg) (s : CSess) (data : Bytes) (h : CBounded cfg s) :
+    CBounded cfg (cOnData cfg s data).1 := by
+  obtain ⟨_, _, hfr⟩ := h
+  unfold cOnData
+  simp only
+  split
+  · rename_i hu
+    obtain ⟨h1, h2, h3⟩ := cFrames_bounded cfg { s with buffer := [] } (s.buffer ++ data) rfl hfr
+    exact ⟨fun _ => h1, fun hh => by rw [h3] at hh; simp [hu] at hh, h2⟩
+  · rename_i hu
+    have hs := cHandshake_spec cfg { s with buffer := [] } (s.buffer ++ data)
+    cases hh : cHandshake cfg { s with buffer := [] } (s.buffer ++ data) with
+    | wait s1 =>
+      rw [hh] at hs
+      simp only
+      rw [hs.1]
+      exact ⟨fun hh => by simp [hu] at hh, fun _ => hs.2, hfr⟩
+    | failed s1 ev =>
+      rw [hh] at hs
+      simp only
+      rw [hs.1]
+      exact ⟨fun hh => by simp [hu] at hh, fun _ => by simp, hfr⟩
+    | ok s1 ev rest =>
+      rw [hh] at hs
+      simp only
+      rw [hs.1]
+      obtain ⟨h1, h2, h3⟩ := cFrames_bounded cfg { { s with buffer := [] } with upgraded := true, connected := true } rest rfl hfr
+      exact ⟨fun _ => h1, fun hh => (by rw [h3] at hh; cases hh), h2⟩
+
+theorem cSendStep_bounded (cfg : CCfg) (s : CSess) (a : Send) (h : CBounded cfg s) : CBounded cfg (cSendStep s a).1 := by
+  obtain ⟨hb, hf, _, _, _, _, hu⟩ := cSendStep_same s a
+  unfold CBounded
+  rw [hb, hf, hu]; exact h
+
+theorem cStep_bounded (cfg : CCfg) (s : CSess) (op : COp) (h : CBounded cfg s) : CBounded cfg (cStep cfg s op).1 := by
+  cases op with
+  | data bs => exact cOnData_bounded cfg s bs h
+  | sendClose c r => exact cSendStep_bounded cfg s _ h
+  | sendText bs => exact cSendStep_bounded cfg s _ h
+  | sendBinary bs => exact cSendStep_bounded cfg s _ h
+  | sendPing bs => exact cSendStep_bounded cfg s _ h
+
+theorem cRun_bounded (cfg : CCfg) : ∀ (ops : List COp) (s : CSess), CBounded cfg s → CBounded cfg (cRun cfg s ops).1 := by
+  intro ops
+  induction ops with
+  | nil => intro s h; exact h
+  | cons op ops ih => intro s h; simp only [cRun]; exact ih _ (cStep_bounded cfg s op h)
+
+/-! ### reassembly and message-level exactness (client) -/
+
+def cIsDelivery : CEv → Bool
+  | .text _ => true
+  | .binary _ => true
+  | _ => false
+
+/-- the messages handed to the application, in order -/
+def cMsgs (evs : List CEv) : List CEv := evs.filter cIsDelivery
+
+@[simp] theorem cMsgs_nil : cMsgs [] = [] := rfl
+@[simp] theorem cMsgs_append (a b : List CEv) : cMsgs (a ++ b) = cMsgs a ++ cMsgs b := by simp [cMsgs]
+
+theorem cSendStep_msgs (s : CSess) (a : Send) : cMsgs (cSendStep s a).2 = [] := by
+  cases a <;> simp only [cSendStep, cSend, cSendPing, cSendClose] <;> (repeat' split) <;> simp [cMsgs, cIsDelivery]
+
+theorem cRunSends_msgs : ∀ (as : List Send) (s : CSess), cMsgs (cRunSends s as).2 = [] := by
+  intro as
+  induction as with
+  | nil => intro s; rfl
+  | cons a as ih => intro s; simp [cRunSends, cSendStep_msgs, ih]
+
+theorem cFire_msgs (s : CSess) (e : CEv) (sc : List Send) : cMsgs (cFire s e sc).2 = cMsgs [e] := by
+  simp only [cFire]
+  have : e :: (cRunSends s sc).2 = [e] ++ (cRunSends s sc).2 := rfl
+  rw [this, cMsgs_append, cRunSends_msgs]; simp
+
+@[simp] theorem cSendClose_msgs (s : CSess) (c : Nat) (r : Bytes) : cMsgs (cSendClose s c r).2 = [] := by
+  simp [cSendClose, cMsgs, cIsDelivery]
 
 def cPongsOf : List Frame → List CEv
   | [] => []
   | c :: cs => (if c.opcode = 9 then [CEv.sent 10 true c.payload] else []) ++ cPongsOf cs
 
-theorem cReassembly_tail (op : Nat) (hop : op = 1 ∨ op = 2) :
-    ∀ (fs : List Frame) (acc : Bytes), Tail acc fs → ∀ (s : CSess), s.fragOp = op →
-      (cInterp s (fs.map toP)).2 = cPongsOf fs ++ cDeliverEv op (s.fragBuf ++ acc) := by
+def cCleared (s : CSess) : CSess := { s with fragBuf := [], fragOp := 0 }
+
+theorem cHandleFrame_cont (cfg : CCfg) (s : CSess) (f : Frame) (h0 : f.opcode = 0)
+    (hl : (s.fragBuf ++ f.payload).length ≤ cfg.max) :
+    cHandleFrame cfg s f =
+      if f.fin then cDeliver cfg.cb (cCleared s) s.fragOp (s.fragBuf ++ f.payload)
+      else ({ s with fragBuf := s.fragBuf ++ f.payload }, []) := by
+  have hgt : ¬ cfg.max < s.fragBuf.length + f.payload.length := by simp at hl; omega
+  simp [cHandleFrame, cHandleDataFrame, cAccumulate, h0, hgt, cCleared]
+
+theorem cHandleFrame_start (cfg : CCfg) (s : CSess) (f : Frame)
+    (hop : f.opcode = 1 ∨ f.opcode = 2) (hl : f.payload.length ≤ cfg.max) :
+    cHandleFrame cfg s f =
+      if f.fin then cDeliver cfg.cb (cCleared s) f.opcode f.payload
+      else ({ s with fragOp := f.opcode, fragBuf := f.payload }, []) := by
+  have hgt : ¬ cfg.max < f.payload.length := by omega
+  rcases hop with h | h <;> simp [cHandleFrame, cHandleDataFrame, cAccumulate, h, hgt, cCleared]
+
+theorem cHandleFrame_ping (cfg : CCfg) (s : CSess) (f : Frame) (h : f.opcode = 9) :
+    cHandleFrame cfg s f = (s, [.sent 10 true f.payload]) := by
+  simp [cHandleFrame, h]
+
+theorem cHandleFrame_pong (cfg : CCfg) (s : CSess) (f : Frame) (h : f.opcode = 10) :
+    cHandleFrame cfg s f = (s, []) := by
+  simp [cHandleFrame, h]
+
+theorem cInterp_cons_ok (cfg : CCfg) (s : CSess) (r : PRes) (rs : List PRes) (h : s.protocolFailed = false) :
+    cInterp cfg s (r :: rs) =
+      ((cInterp cfg (cInterp1 cfg s r).1 rs).1, (cInterp1 cfg s r).2 ++ (cInterp cfg (cInterp1 cfg s r).1 rs).2) := by
+  simp [cInterp, h]
+
+/-- **Client reassembly**: same statement as the server's -/
+theorem cReassembly_tail (cfg : CCfg) :
+    ∀ (fs : List Frame) (acc : Bytes), Tail acc fs → ∀ (s : CSess), s.protocolFailed = false →
+      (s.fragBuf ++ acc).length ≤ cfg.max →
+      cInterp cfg s (fs.map toP) =
+        ((cDeliver cfg.cb (cCleared s) s.fragOp (s.fragBuf ++ acc)).1,
+         cPongsOf fs ++ (cDeliver cfg.cb (cCleared s) s.fragOp (s.fragBuf ++ acc)).2) := by
   intro fs acc ht
   induction ht with
   | last f h0 hfin =>
-    intro s hfo
-    rcases hop with hop | hop <;> subst hop
-    · by_cases hu : isValidUtf8 (s.fragBuf ++ f.payload) = true
-      · simp [cInterp, cInterp1, toP, cHandleFrame, cHandleDataFrame, h0, hfin, hfo, cPongsOf, cDeliverEv, hu]
-      · simp [cInterp, cInterp1, toP, cHandleFrame, cHandleDataFrame, h0, hfin, hfo, cPongsOf, cDeliverEv, hu, cSendClose]
-    · simp [cInterp, cInterp1, toP, cHandleFrame, cHandleDataFrame, h0, hfin, hfo, cPongsOf, cDeliverEv]
+    intro s hpf hlen
+    rw [List.map_cons, cInterp_cons_ok cfg s _ _ hpf]
+    simp [cInterp, cInterp1, toP, cHandleFrame_cont cfg s f h0 hlen, hfin, cPongsOf, h0]
   | cont f acc rest h0 hfin _ ih =>
-    intro s hfo
-    have := ih { s with fragBuf := s.fragBuf ++ f.payload } hfo
-    simp [cInterp, toP, cInterp1, cHandleFrame, cHandleDataFrame, h0, hfin, cPongsOf, List.append_assoc] at this ⊢
-    exact this
+    intro s hpf hlen
+    have hlen' : (s.fragBuf ++ f.payload).length ≤ cfg.max := by simp at hlen ⊢; omega
+    have := ih { s with fragBuf := s.fragBuf ++ f.payload } hpf (by simpa [List.append_assoc] using hlen)
+    rw [List.map_cons, cInterp_cons_ok cfg s _ _ hpf]
+    simp only [toP, cInterp1, cHandleFrame_cont cfg s f h0 hlen', hfin]
+    simp [this, cPongsOf, h0, cCleared, List.append_assoc]
   | ctl c acc rest hc _ ih =>
-    intro s hfo
-    have := ih s hfo
+    intro s hpf hlen
+    have := ih s hpf hlen
+    rw [List.map_cons, cInterp_cons_ok cfg s _ _ hpf]
     rcases hc with hc | hc
-    · simp only [List.map_cons, cInterp, toP, cInterp1, cHandleFrame, hc, cPongsOf]
-      simp [this]
-    · simp only [List.map_cons, cInterp, toP, cInterp1, cHandleFrame, hc, cPongsOf]
-      simp [this]
+    · simp only [toP, cInterp1, cHandleFrame_ping cfg s c hc, cPongsOf]
+      simp [this, hc]
+    · simp only [toP, cInterp1, cHandleFrame_pong cfg s c hc, cPongsOf]
+      simp [this, hc]
 
-end Iora.Ws
+def cDeliveryOf : Nat × Bytes → Option CEv
+  | (op, pl) => if op = 1 then (if isValidUtf8 pl then some (.text pl) else none) else some (.binary pl)
 
-namespace Iora.Ws
-open Iora Iora.Framing
+theorem cDeliver_msgs (cb : CCbs) (s : CSess) (op : Nat) (pl : Bytes) (hop : op = 1 ∨ op = 2) :
+    cMsgs (cDeliver cb s op pl).2 = (cDeliveryOf (op, pl)).toList := by
+  unfold cDeliver cDeliveryOf
+  rcases hop with h | h <;> subst h
+  · by_cases hu : isValidUtf8 pl = true
+    · simp only [hu, Bool.not_true, Bool.false_eq_true, ↓reduceIte, cFire_msgs]
+      simp [cMsgs, cIsDelivery]
+    · simp [hu]
+  · simp only [show ¬ (2 : Nat) = 1 by omega, ↓reduceIte, cFire_msgs]
+    simp [cMsgs, cIsDelivery]
 
-theorem cLoop_rest : ∀ (fuel : Nat) (s : CSess) (d : Bytes), d.length < fuel → s.buffer = [] →
-    (cLoop fuel s d).1.buffer = [] ∧ ∀ r, (cLoop fuel s d).2.2 = some r → r.length < 14 + cmax := by
-  intro fuel
-  induction fuel with
-  | zero => intro s d h; omega
-  | succ fuel ih =>
-    intro s d hf hb
-    unfold cLoop
-    split
-    · rename_i he
-      refine ⟨hb, ?_⟩
-      intro r hr; cases hr
-      simp at he; subst he; simp; omega
-    · split
-      · rename_i hp
-        refine ⟨hb, ?_⟩
-        intro r hr; cases hr
-        exact parse_incomplete_short' cmax d hp
-      · refine ⟨by simp [cFail, cSendClose, hb], ?_⟩
-        intro r hr; cases hr
-      · refine ⟨by simp [cFail, cSendClose, hb], ?_⟩
-        intro r hr; cases hr
-      · rename_i f n hp
-        obtain ⟨h2, hnl, _, _⟩ := parse_frame_bounds clientMaxPayload d f n hp
-        have hl : (d.drop n).length < fuel := by simp [List.length_drop]; omega
-        exact ih (cHandleFrame s f).1 (d.drop n) hl ((cHandleFrame_keeps s f).1.trans hb)
+theorem cDeliver_keeps (cb : CCbs) (s : CSess) (op : Nat) (pl : Bytes) (hp : s.protocolFailed = false) (hf : s.fragBuf = []) :
+    (cDeliver cb s op pl).1.protocolFailed = false ∧ (cDeliver cb s op pl).1.fragBuf = [] := by
+  obtain ⟨_, h2, _, _, h5, _, _⟩ := cDeliver_same cb s op pl
+  exact ⟨by rw [h5]; exact hp, by rw [h2]; exact hf⟩
 
-theorem cOnData_buffer (s : CSess) (data : Bytes) : (cOnData s data).1.buffer.length < 14 + cmax := by
-  unfold cOnData
+theorem cIsMsg_exact (cfg : CCfg) (op : Nat) (pl : Bytes) (fsm : List Frame) (hm : IsMsg op pl fsm)
+    (hfit : pl.length ≤ cfg.max) (s : CSess) (hpf : s.protocolFailed = false) :
+    cMsgs (cInterp cfg s (fsm.map toP)).2 = (cDeliveryOf (op, pl)).toList ∧
+    (cInterp cfg s (fsm.map toP)).1.protocolFailed = false ∧ (cInterp cfg s (fsm.map toP)).1.fragBuf = [] := by
+  cases hm with
+  | single f hop hfin =>
+    have hk := cDeliver_keeps cfg.cb (cCleared s) f.opcode f.payload (by simpa [cCleared] using hpf) rfl
+    rw [List.map_cons, List.map_nil, cInterp_cons_ok cfg s _ _ hpf]
+    simp only [cInterp, toP, cInterp1, cHandleFrame_start cfg s f hop hfit, hfin, ↓reduceIte, List.append_nil]
+    exact ⟨cDeliver_msgs cfg.cb _ _ _ hop, hk.1, hk.2⟩
+  | frag f acc rest hop hfin ht =>
+    have hfl : f.payload.length ≤ cfg.max := by simp at hfit; omega
+    have hr := cReassembly_tail cfg rest acc ht { s with fragOp := f.opcode, fragBuf := f.payload } hpf hfit
+    have hk := cDeliver_keeps cfg.cb (cCleared s) f.opcode (f.payload ++ acc) (by simpa [cCleared] using hpf) rfl
+    rw [List.map_cons, cInterp_cons_ok cfg s _ _ hpf]
+    simp only [toP, cInterp1, cHandleFrame_start cfg s f hop hfl, hfin, Bool.false_eq_true, ↓reduceIte, List.nil_append]
+    rw [hr]
+    have hc : cCleared { s with fragOp := f.opcode, fragBuf := f.payload } = cCleared s := rfl
+    simp only [hc]
+    refine ⟨?_, hk.1, hk.2⟩
+    rw [cMsgs_append, cDeliver_msgs cfg.cb _ _ _ hop]
+    have : cMsgs (cPongsOf rest) = [] := by
+      clear hr ht hfit
+      induction rest with
+      | nil => rfl
+      | cons c cs ih => simp only [cPongsOf, cMsgs_append, ih, List.append_nil]; split <;> simp [cMsgs, cIsDelivery]
+    rw [this]; rfl
+
+theorem cHandleFrame_close_msgs (cfg : CCfg) (s : CSess) (f : Frame) (h : f.opcode = 8) :
+    cMsgs (cHandleFrame cfg s f).2 = [] := by
+  unfold cHandleFrame
+  rw [if_neg (by simp [h]), if_neg (by omega), if_neg (by omega), if_pos h]
   simp only
-  split
-  · simp; omega
-  · obtain ⟨h1, h2⟩ := cLoop_rest ((s.buffer ++ data).length + 1) { s with buffer := [] } (s.buffer ++ data) (by omega) rfl
-    split
-    · rename_i rest hr
-      exact h2 rest hr
-    · rw [h1]; simp; omega
+  split <;> simp only [cMsgs_append, cFire_msgs, cSendClose_msgs] <;> simp [cMsgs, cIsDelivery]
 
-theorem cStep_buffer (s : CSess) (op : COp) (h : s.buffer.length < 14 + cmax) :
-    (cStep s op).1.buffer.length < 14 + cmax := by
-  cases op with
-  | data bs => exact cOnData_buffer s bs
-  | sendClose c r => exact h
-  | sendText bs => simp only [cStep, cSend]; repeat' split
-                   all_goals exact h
-  | sendBinary bs => simp only [cStep, cSend]; repeat' split
-                     all_goals exact h
-  | sendPing bs => simp only [cStep, cSend]; repeat' split
-                   all_goals exact h
-
-theorem cRun_buffer : ∀ (ops : List COp) (s : CSess), s.buffer.length < 14 + cmax →
-    (cRun s ops).1.buffer.length < 14 + cmax := by
-  intro ops
-  induction ops with
-  | nil => intro s h; exact h
-  | cons op ops ih => intro s h; simp only [cRun]; exact ih _ (cStep_buffer s op h)
+/-- **Message-level exactness (client).** -/
+theorem cMsgs_exact (cfg : CCfg) : ∀ (ms : List (Nat × Bytes)) (fs : List Frame), Msgs ms fs →
+    (∀ m ∈ ms, m.2.length ≤ cfg.max) → ∀ (s : CSess), s.protocolFailed = false → s.fragBuf = [] →
+    cMsgs (cInterp cfg s (fs.map toP)).2 = ms.filterMap cDeliveryOf := by
+  intro ms fs h
+  induction h with
+  | nil => intro _ s _ _; rfl
+  | close c h8 =>
+    intro _ s hpf _
+    rw [List.map_cons, List.map_nil, cInterp_cons_ok cfg s _ _ hpf]
+    simp only [cInterp, toP, cInterp1, List.append_nil]
+    exact cHandleFrame_close_msgs cfg s c h8
+  | ctl c ms fs hc _ ih =>
+    intro hfit s hpf hf
+    have := ih hfit s hpf hf
+    rw [List.map_cons, cInterp_cons_ok cfg s _ _ hpf]
+    rcases hc with hc | hc
+    · simp only [toP, cInterp1, cHandleFrame_ping cfg s c hc, cMsgs_append, this]
+      simp [cMsgs, cIsDelivery]
+    · simp only [toP, cInterp1, cHandleFrame_pong cfg s c hc, cMsgs_append, this]
+      simp
+  | msg op pl fsm ms fs hm _ ih =>
+    intro hfit s hpf hf
+    obtain ⟨e1, e2, e3⟩ := cIsMsg_exact cfg op pl fsm hm (hfit (op, pl) (List.mem_cons_self ..)) s hpf
+    rw [List.map_append, cInterp_append]
+    simp only [cMsgs_append, e1]
+    rw [ih (fun m hm' => hfit m (List.mem_cons_of_mem _ hm')) _ e2 e3]
+    simp only [List.filterMap_cons]
+    cases cDeliveryOf (op, pl) <;> simp
 
 end Iora.Ws
